@@ -127,28 +127,49 @@ let kind_name = function KBad -> "bad" | KRelInd -> "relind" | KGenCheck -> "gen
 let set_eq (a : tlit list) (b : tlit list) = List.sort_uniq compare a = List.sort_uniq compare b
 let frame_str = function FInit -> "0" | FFinite k -> string_of_int (int_of_nat k) | FInf -> "inf"
 
-(* None = the model reproduces the run; Some reason otherwise.  Second component: statistics. *)
-let replay_trace (evs : tev list) ~(gen_on : bool) ~(has_bads : bool) ~(impl : string) : string option * (int * int * int) =
+(* None = the model reproduces the run; Some reason otherwise.  Second component: statistics.
+   [inject_err]: the real run was hit by an injected solver error (property C15): the recorded trace stops
+   before the failing call; the oracle answers [AErr] at the first query that was not recorded, the BMC
+   oracle fails too (the fault may have hit the fallback), and the model must stop with that error right
+   there, having produced exactly the recorded events. *)
+let replay_trace (evs : tev list) ~(gen_on : bool) ~(has_bads : bool) ~(impl : string) ~(inject_err : bool) ~(tail_unknown : bool)
+  : string option * (int * int * int) =
   let answers = Array.of_list (List.filter_map (function TQ (_, _, _, _, _, a) -> Some a | _ -> None) evs) in
   let exhausted = ref false in
-  let solve (n : nat) (_ : tlit query) : (tlit, tlit list) answer =
+  let solve (n : nat) (_ : tlit query) : (tlit, tlit list, string) answer =
     let i = int_of_nat n in
     if i < Array.length answers then
       (match answers.(i) with TSat m -> ASat m | TUnsat c -> AUnsat c | TUnknown -> AUnknown)
+    else if inject_err && i = Array.length answers then AErr "injected"
+    (* an injected `unknown` at one of fix_gen_cube's queries: pdr.rs returns before the hook logs the query *)
+    else if tail_unknown && i = Array.length answers then AUnknown
     else (exhausted := true; AUnknown) in
-  let bmc = if impl = "fail" then BmcFail () else BmcOther in
+  let bmc = if inject_err then BmcErr "injected" else if impl = "fail" then BmcFail () else BmcOther in
   let fuel = nat_of_int 5000 in
-  let r = pdr (fun a b -> a = b) (fun m -> m) solve gen_on has_bads bmc fuel fuel in
+  let r = pdr (fun a b -> a = b) (fun m -> m) solve (fun _ -> None) O gen_on has_bads bmc fuel fuel in
   let nq = Array.length answers in
   let nb = List.length (List.filter (function TBlock _ -> true | _ -> false) evs) in
   let nf = List.length (List.filter (function TAdd _ -> true | _ -> false) evs) in
   let stats = (nq, nb, nf) in
-  match r with
-  | Err e -> (Some (Printf.sprintf "model-err:%s" (match e with EUnknown k -> "unknown-" ^ kind_name k | EOrigCube -> "orig-cube")), stats)
-  | Panic n -> (Some (Printf.sprintf "model-panic:%d" (int_of_nat n)), stats)
-  | Fuel -> (Some "model-out-of-fuel", stats)
-  | Ok (v, st) ->
-      let mlog = List.rev st.p_log in
+  let is_err_event = function
+    | EvQuery (_, AErr _) | EvCmdFail (_, _) | EvBmcErr _ -> true
+    | _ -> false in
+  (* the events of the model's run (oldest first) and its outcome *)
+  let outcome =
+    match r with
+    | Ok (v, st) -> Some (List.rev st.p_log, (match v with VSuccess -> "success" | VFail _ -> "fail" | VUnknown -> "unknown"))
+    | Err (e, log) ->
+        let l = List.rev log in
+        let l = List.filter (fun ev -> not (is_err_event ev)) l in
+        (* pdr.rs returns from init_steps_into on `unknown` before the hook logs that query *)
+        let l = match e with
+          | EUnknown (KGenCheck | KGenFix) -> (match List.rev l with EvQuery (_, AUnknown) :: r -> List.rev r | _ -> l)
+          | _ -> l in
+        Some (l, "err")
+    | Panic _ | Fuel -> None in
+  match outcome with
+  | None -> ((match r with Panic n -> Some (Printf.sprintf "model-panic:%d" (int_of_nat n)) | _ -> Some "model-out-of-fuel"), stats)
+  | Some (mlog, mv) ->
       let rec cmp i ml tl =
         match ml, tl with
         | [], [] -> None
@@ -175,9 +196,7 @@ let replay_trace (evs : tev list) ~(gen_on : bool) ~(has_bads : bool) ~(impl : s
        | Some m -> (Some m, stats)
        | None ->
            if !exhausted then (Some "the model asked more queries than the real run", stats)
-           else
-             let mv = match v with VSuccess -> "success" | VFail _ -> "fail" | VUnknown -> "unknown" in
-             if mv <> impl then (Some (Printf.sprintf "verdict %s vs %s" mv impl), stats) else (None, stats))
+           else if mv <> impl then (Some (Printf.sprintf "verdict %s vs %s" mv impl), stats) else (None, stats))
 
 let handle (x : Sexp.t) : string =
   let id, fs = case_fields x in
@@ -204,6 +223,10 @@ let handle (x : Sexp.t) : string =
       let vs = verdict_str v in
       let clean s = String.map (fun c -> if c = '\n' || c = '\t' || c = '\r' then ' ' else c) s in
       let impl_name = (match impl with Sexp.Atom a -> a | Sexp.List (Sexp.Atom a :: _) -> a | _ -> "?") in
+      (* fault injection (property C15 on the real pdr): (fault unknown|error N) (faulthit 0|1) *)
+      let fault = match Sexp.field_opt "fault" fs with Some (k :: _) -> Some (Sexp.atom k) | _ -> None in
+      let fault_hit = (match Sexp.field_opt "faulthit" fs with Some [h] -> Sexp.atom h = "1" | _ -> false) in
+      let inject_err = fault = Some "error" && fault_hit in
       let res status key detail =
         (* the state-level correspondence is evaluated on the runs whose verdict is right *)
         let (status, key, detail) =
@@ -211,16 +234,27 @@ let handle (x : Sexp.t) : string =
           else match Sexp.field_opt "trace" fs with
             | Some (Sexp.Atom "on" :: evs) ->
                 let gen_on = Sexp.atom (Sexp.field1 "gen" fs) = "on" in
-                (match replay_trace (List.map parse_tev evs) ~gen_on ~has_bads:(sy.s_bads <> []) ~impl:impl_name with
+                (match replay_trace (List.map parse_tev evs) ~gen_on ~has_bads:(sy.s_bads <> []) ~impl:impl_name ~inject_err ~tail_unknown:(fault = Some "unknown" && fault_hit && impl_name = "err") with
                  | (None, (nq, nb, nf)) -> ("ok", key, Printf.sprintf "%s trace=ok queries=%d blocks=%d frames=%d" detail nq nb nf)
                  | (Some m, _) ->
                      let cls = if String.length m >= 5 && String.sub m 0 5 = "event" then "event-mismatch"
+                       else if String.length m >= 9 && String.sub m 0 9 = "the model" then "extra-queries"
                        else if String.length m >= 7 && String.sub m 0 7 = "verdict" then "verdict-mismatch"
                        else List.hd (String.split_on_char ':' (List.hd (String.split_on_char ' ' m))) in
                      ("diff", "pdr-model:" ^ cls, "concrete model vs real run: " ^ m))
             | _ -> (status, key, detail ^ " trace=off") in
         Registry.result ~id ~status ~key:(clean key) ~detail:(clean (Printf.sprintf "spec=%s impl=%s cfg=%s %s" vs impl_name cfg detail)) () in
       (match impl, v with
+       (* ---- runs with an injected solver fault (C15 on the real pdr) *)
+       | Sexp.List (Sexp.Atom "err" :: Sexp.Str msg :: _), _ when inject_err && contains msg "injected" ->
+           res "ok" "fault:error-propagated" "the injected solver error is the result"
+       | (Sexp.Atom ("success" | "unknown") | Sexp.List (Sexp.Atom "fail" :: _)), _ when inject_err ->
+           res "fail" "pdr:verdict-after-injected-error" "a solver call returned an error and pdr still produced a verdict"
+       | Sexp.List (Sexp.Atom "err" :: Sexp.Str msg :: _), _ when fault = Some "unknown" && fault_hit && contains msg "unknown query" ->
+           res "ok" "fault:unknown-is-error" "the injected unknown answer ends the run with an error"
+       | Sexp.Atom "unknown", _ when fault = Some "unknown" && fault_hit ->
+           res "ok" "fault:unknown-verdict" "the injected unknown answer gives an Unknown verdict"
+       (* ---- *)
        | Sexp.Atom "success", Safe -> res "ok" "safe" ""
        | Sexp.Atom "success", Unsafe _ -> res "fail" ("pdr:success-on-unsafe" ^ qual) "PDR answered success although a bad state is reachable"
        | Sexp.List [Sexp.Atom "fail"; Sexp.List (Sexp.Atom "wit" :: wit)], Safe ->
